@@ -5,6 +5,7 @@ import fabric_corr, pubsub_corr
 def explore(run, lean):
     fabric_corr.explore(run, "C09", 200 if run.tier == "quick" else 4000)
     pubsub_corr.explore_position(run)
+    pubsub_corr.explore_position_race(run, 40 if run.tier == "quick" else 1000)
     run.extra["rule"] = ("(a) scenarios: 1-4 subscriber queues (plain deques and active-object LockingDeques, several of them empty = equal "
                          "contents), one or two client threads issuing subscribe/publish/start/stop/clear/is_alive (start/stop/clear "
                          "from one thread only); half of them structured (subscribe*, publish* before the first start = maximal "
@@ -16,6 +17,8 @@ def explore(run, lean):
     run.assumptions.append("queue.PriorityQueue.get returns the minimum for FabricEvent.__lt__; GIL atomicity of each Queue primitive")
     ROUND6_RULE = '; queue_type given as equal strings that are not the literal (built at run time, JSON, str subclass, read from a stream)'
     run.extra["rule"] += ROUND6_RULE
+    ROUND8_RULE = "; a lifo delivery racing a direct post onto the same (empty or non-empty) queue, the deque's operations being scheduling points; Props/C09Race proves the layout for every interleaving of atomic operations (round 8)"
+    run.extra["rule"] = run.extra.get("rule", "") + ROUND8_RULE
 
 
 def replay(case):
